@@ -15,6 +15,8 @@ def rebuild_for_replay(rec):
 def run(chk):
     per = chk.pick(640, 19000)           # per shard; 16 shards -> 1.0e4 / 3.0e5 cases (6/16 mutated trees, 4/16 random bytes, 2/16 lifecycle, ...)
     chk.run('asan-pat', build(), per)
+    # the same cases with never-written locals reading as zero: a branch on such a local (NULL / not NULL) goes the other way
+    chk.run('asan-zero', build('asan-zero'), per)
     chk.rule = ('case classes rotate over the case index: random-byte files; well-formed trees with 1-4 hostile mutations (NUL, no final newline, lines of '
                 '20477..61440 bytes, 100-600 begin lines, lone %, missing/repeated/cyclic %include, empty file, damaged magic line, %preproc, backquote/%exec, '
                 '%get( nested up to 3000 deep, include chains of 250-262 distinct files, byte flips, truncation); registration stress (1..300 contexts, 0..300 built-ins) with the C09 model while inside the '
@@ -22,7 +24,7 @@ def run(chk):
                 'with heap balance and cycle equality; spiftool_temp_file x 200 per case.  Every scenario with a heap balance is executed twice, a residue counts only if '
                 'it repeats.  distinct = distinct (mutation kind, file class), (lengths classes, result), (registration counts), ... hashes')
     chk.assumptions += ['external commands are never executed: system/fork/exec*/popen/posix_spawn are link-time wrapped (the monitor may simulate the command\'s output file)',
-                        'termination is decided on a logical budget of fgets calls (64 x lines of all files + 1000), not on time',
+                        'termination is decided on a logical budget of fgets calls (64 x lines of all files + 1000; 600 x when the monitor plays a pass-through preprocessor, whose copy may legitimately be re-entered through %include down to the 255-level file index), not on time',
                         'TMPDIR/TMP always point into the scratch directory (the /tmp fallback of spiftool_temp_file is not exercised)',
                         'magic lines keep the version part short: spiftool_version_compare overflows are C17\'s subject']
     for name, n in (('bytes_cases', 500), ('mutated_tree_cases', 1000), ('registration_cases', 200), ('find_cases', 100), ('lifecycle_programs', 300), ('temp_cases', 100),
@@ -32,4 +34,4 @@ def run(chk):
                     ('find_file_name_at_limit', 20), ('lifecycle_cycles', 900), ('reg_contexts_160_plus', 20), ('reg_builtins_160_plus', 5), ('parse_via_path', 100),
                     ('events_checked', 10000)):
         chk.require(name, n)
-    chk.min_cases = per * 12
+    chk.min_cases = per * 24
